@@ -97,6 +97,15 @@ def timetable_checks(specs, durs, starts, perm, scope, tol=0.0, cycles=None):
     return None
 
 
+def interleaved_shapes(full=False):
+    """sc.interleave_shapes (a gate of every one-qubit name, IDLE included, between two non-commuting gates on one qubit)
+    with three duration patterns -> (sequence, duration numerators)"""
+    for k, seq in enumerate(sc.interleave_shapes(full=full)):
+        n = len(seq)
+        for d in ([1] * n, [1 + (i * 3 + k) % 4 for i in range(n)], [5] + [1] * (n - 1)):
+            yield seq, d
+
+
 TWO_TARGET = ["SWAP", "ISWAP", "SQRTSWAP", "SQRTISWAP", "SWAPALPHA", "BERKELEY", "MS", "RZX"]
 
 
@@ -297,7 +306,7 @@ class C11(PropertyCheck):
             L = rng.randint(1, 14)
             pool = P[N]
             if rng.random() < 0.5:
-                names = rng.sample(["CNOT", "X", "RX", "Z", "RZ", "CZ", "QASMU", "SWAP", "TOFFOLI", "CRX", "SNOT", "ISWAP", "MS"], 3)
+                names = rng.sample(sc.FEW_NAMES, 3)
                 pool = sc.placements(N, [n for n in names if sum(sc.LIBRARY[n][:2]) <= N] or ["X"])
             specs = specs_from([rng.choice(pool) for _ in range(L)])
             durs = duration_stream(rng, L, rng.choice(KINDS))
@@ -310,6 +319,13 @@ class C11(PropertyCheck):
             for m, p in settings:
                 batch.append((specs_from(seq), [d * sc.DEN for d in durs], m, p, False))
         self._flush(ctx, res, batch, "priority-shapes")
+        # a gate between two non-commuting gates on one qubit (every one-qubit name, IDLE included) ---------------
+        shapes = list(interleaved_shapes(full=ctx.thorough))
+        if not ctx.thorough:
+            shapes = shapes[:315] + rng.sample(shapes[315:], 300)
+        batch = [(specs_from(seq), [d * sc.DEN for d in durs], m, p, k % 5 == 0)
+                 for k, (seq, durs) in enumerate(shapes) for m, p in settings]
+        self._flush(ctx, res, batch, "interleaved")
         # degenerate ----------------------------------------------------------------------------
         batch = [([], [], m, p, False) for m, p in settings]
         batch += [(specs_from([("GLOBALPHASE", [], [])]), [sc.DEN], m, p, False) for m, p in settings]
@@ -403,8 +419,7 @@ class C11(PropertyCheck):
         N = rng.choice([2, 3, 4, 5])
         P = sc.placements(N)
         if rng.random() < 0.6:
-            names = rng.sample(["CNOT", "X", "RX", "Z", "RZ", "CZ", "Y", "RY", "SWAP", "TOFFOLI", "CRX", "SNOT", "QASMU",
-                                "ISWAP", "SQRTSWAP", "MS", "BERKELEY", "RZX"], 4)
+            names = rng.sample(sc.FEW_NAMES + ["SQRTSWAP", "BERKELEY", "RZX"], 4)
             P = sc.placements(N, [n for n in names if sum(sc.LIBRARY[n][:2]) <= N] or ["X"])
         L = rng.randint(2, 12)
         specs = specs_from([rng.choice(P) for _ in range(L)])
@@ -416,6 +431,12 @@ class C11(PropertyCheck):
             w.update(durs=duration_stream(rng, L, rng.choice(KINDS)), den=sc.DEN)
         return w
 
+    def _interleaved_witnesses(self, full=False):
+        for seq, durs in interleaved_shapes(full=full):
+            for m in ("ASAP", "ALAP"):
+                yield {"ins": specs_from(seq), "durs": list(durs), "den": 1, "method": m, "perm": True,
+                       "shuf": None, "scope": "covered"}
+
     def _shape_witnesses(self):
         for seq, durs in priority_shapes():
             for m in ("ASAP", "ALAP"):
@@ -424,6 +445,7 @@ class C11(PropertyCheck):
                            "shuf": None, "scope": "covered"}
 
     def _systematic(self):
+        yield from self._interleaved_witnesses()
         yield from self._shape_witnesses()
         alpha = [("CNOT", [1], [0]), ("CNOT", [2], [0]), ("CNOT", [2], [1]), ("SNOT", [2], []), ("X", [1], []),
                  ("Z", [0], []), ("SWAP", [0, 1], []), ("CZ", [1], [0])]
@@ -457,6 +479,11 @@ class C11(PropertyCheck):
         # (see timetable_checks); the other clauses are evaluated for every list.
         shapes = list(self._shape_witnesses())
         for w in ctx.rng.sample(shapes, 80):
+            f, d = self.oracle_replay(ctx, w)
+            if f:
+                yield w, d
+        inter = list(self._interleaved_witnesses())
+        for w in inter[:210] + ctx.rng.sample(inter[210:], 200):
             f, d = self.oracle_replay(ctx, w)
             if f:
                 yield w, d
